@@ -4,6 +4,10 @@ From Coq Require Import Floats.SpecFloat.
 From AJ Require Import Model.Base Model.FloatModel Model.Value Model.NumParse Model.Convert.
 From AJ Require Import Proofs.NumProofs.
 From AJ Require Gen.Config.
+From Coq Require Import Reals.
+From Flocq Require Import Core.
+From Flocq Require BinarySingleNaN.
+From AJ Require Import Proofs.FloatErr.
 Local Open Scope Z_scope.
 
 (* integer stored, integral target: the value when it fits, 0 otherwise — all 8 widths/signednesses *)
@@ -51,6 +55,24 @@ Print Assumptions C13_result_in_range.
 Theorem C13_nan_is_zero : forall f t, conv_float_int f t S754_nan = 0.
 Proof. intros. unfold conv_float_int. rewrite can_conv_nan. reflexivity. Qed.
 Print Assumptions C13_nan_is_zero.
+
+(* as<double>() / as<float>() of a stored integer is the IEEE-754 round-to-nearest-even value of that integer
+   (BinarySingleNaN.SF2R radix2 r = the real value of r; these two theorems are over the reals and depend on the standard library's Reals
+   axioms), and exact whenever the integer fits the significand *)
+Theorem C13_int_to_double_correctly_rounded : forall c z, 0 <= z < 2 ^ 64 ->
+  BinarySingleNaN.SF2R radix2 (as_float c F64 (JInt z)) = round radix2 (FLT_exp (-1074) 53) ZnearestE (IZR z) /\
+  exists d, (Rabs d <= bpow radix2 (-53))%R /\ BinarySingleNaN.SF2R radix2 (as_float c F64 (JInt z)) = (IZR z * (1 + d))%R.
+Proof. intros c z Hz. exact (f_of_Z64_rel z Hz). Qed.
+Print Assumptions C13_int_to_double_correctly_rounded.
+
+Theorem C13_int_to_float_exact_when_it_fits : forall c f z, (f = F32 \/ f = F64) -> Z.abs z < 2 ^ prec f ->
+  BinarySingleNaN.SF2R radix2 (as_float c f (JInt z)) = IZR z /\ valid f (as_float c f (JInt z)) /\
+  FloatModel.is_finite (as_float c f (JInt z)) = true.
+Proof.
+  intros c f z Hf Hz. cbn [as_float]. apply f_of_Z_exact; [|exact Hz].
+  destruct Hf as [-> | ->]; [exact good_F32 | exact good_F64].
+Qed.
+Print Assumptions C13_int_to_float_exact_when_it_fits.
 
 (* strings convert by the same rules whatever their length: never a table overrun *)
 Theorem C13_strings_any_length : forall cf s, parse_number cf s <> NumFault.
